@@ -402,7 +402,7 @@ const MALFORMED: [(&str, &[&str]); 10] = [
     ("returns-two-identifiers", &[" @returns a b: text"]),
 ];
 
-const MISFIT: [(&str, &[&str]); 7] = [
+const MISFIT: [(&str, &[&str]); 9] = [
     ("param-no-such-parameter", &[" @param nosuchparam: text"]),
     ("returns-on-non-returning", &[" @returns: text"]),
     ("param-on-non-operation", &[" @param x: text"]),
@@ -411,6 +411,9 @@ const MISFIT: [(&str, &[&str]); 7] = [
     ("returns-unnamed-then-no-such-member", &[" @returns: the whole result", " @returns nosuchmember: text"]),
     ("two-returns-no-such-member", &[" @returns nosuchone: text", " @returns nosuchtwo: text"]),
     ("two-params-no-such-parameter", &[" @param nosuchone: text", " @param nosuchtwo: text"]),
+    // the message runs over several lines and ends in a smaller column than the tag line
+    ("param-on-non-operation-multiline", &[" @param someLongParameterName: description of it", " ok"]),
+    ("returns-on-non-returning-multiline", &[" @returns: a long first line of text for the message", " x", " y z"]),
 ];
 
 /// Number of IncorrectDocComment lints a misfit form must at least produce.
@@ -457,8 +460,8 @@ pub fn make_defect(u: &mut Unstructured, cfg: &GenCfg) -> Result<Defect, &'stati
     } else {
         match name {
             "param-no-such-parameter" => vkind == "operation",
-            "returns-on-non-returning" => vkind != "operation" || op_info.map(|o| o.0 == 0).unwrap_or(false),
-            "param-on-non-operation" => vkind != "operation" && vkind != "enumerator",
+            "returns-on-non-returning" | "returns-on-non-returning-multiline" => vkind != "operation" || op_info.map(|o| o.0 == 0).unwrap_or(false),
+            "param-on-non-operation" | "param-on-non-operation-multiline" => vkind != "operation" && vkind != "enumerator",
             "returns-named-no-such-member" | "returns-unnamed-then-no-such-member" | "two-returns-no-such-member" => {
                 vkind == "operation" && op_info.map(|o| o.0 >= 1).unwrap_or(false)
             }
